@@ -1316,3 +1316,188 @@ func borrow(c *Ctx, run func(*Ctx), fromRule, toRule, keyPrefix, text string) {
 		}
 	}
 }
+
+// ---- the LSN counter never moves backwards ------------------------------------------------------------------------------
+
+// ruleLSNMonotone: LSNs order every change of a page; redo skips a record whose LSN is not larger than the stamp of the
+// page it names. The counter that hands them out therefore only grows: it is read from the header, incremented, or set
+// to a value that a guard shows to be larger than its present value.
+func ruleLSNMonotone(c *Ctx, rule string) {
+	c.Rule(rule, "the LSN counter never moves backwards: fileStore._nextLSN is only read from the header (open), incremented, or assigned a value that a dominating guard shows to be larger than (or equal to) its present value — the catalog inserts of CREATE TABLE stamp pages with LSNs that are in the header but in no log record, so a counter set back to 'last logged LSN' hands those LSNs out again and redo skips the records that carry them (a logged root move is lost after a crash)")
+	c.Robust(rule)
+	w := c.W
+	n := 0
+	for _, name := range w.SortedFuncNames() {
+		f := w.Funcs[name]
+		if f.Pkg != w.Pkgs["storage"] || f.Decl.Body == nil {
+			continue
+		}
+		info := f.Pkg.TypesInfo
+		isCounter := func(e ast.Expr) bool {
+			sel, ok := ast.Unparen(e).(*ast.SelectorExpr)
+			if !ok {
+				return false
+			}
+			v, ok := info.ObjectOf(sel.Sel).(*types.Var)
+			return ok && v.IsField() && v.Name() == "_nextLSN"
+		}
+		var g *Graph
+		k := 0
+		inspectBody(f.Decl.Body, func(x ast.Node) bool {
+			as, ok := x.(*ast.AssignStmt)
+			if !ok {
+				return true
+			}
+			for i, l := range as.Lhs {
+				if !isCounter(l) {
+					continue
+				}
+				k++
+				n++
+				key := f.Name + "|lsn-counter-store#" + itoa(k)
+				if as.Tok == token.ADD_ASSIGN {
+					c.OK(rule, key, as.Pos(), 1, "the counter is added to")
+					continue
+				}
+				if as.Tok != token.ASSIGN || len(as.Lhs) != len(as.Rhs) {
+					c.Undecided(rule, key, "the store into the LSN counter at %s is not a plain assignment", w.Pos(as.Pos()))
+					continue
+				}
+				rhs := ast.Unparen(as.Rhs[i])
+				lk, rk := exprKey(l), exprKey(rhs)
+				// counter + positive constant
+				if be, ok := rhs.(*ast.BinaryExpr); ok && be.Op == token.ADD && exprKey(be.X) == lk {
+					c.OK(rule, key, as.Pos(), 1, "counter + something")
+					continue
+				}
+				if call, ok := rhs.(*ast.CallExpr); ok {
+					if id, ok := ast.Unparen(call.Fun).(*ast.Ident); ok && id.Name == "max" {
+						has := false
+						for _, a := range call.Args {
+							if exprKey(a) == lk {
+								has = true
+							}
+						}
+						if has {
+							c.OK(rule, key, as.Pos(), 1, "max(counter, …)")
+							continue
+						}
+					}
+				}
+				if g == nil {
+					g = f.Graph()
+				}
+				loc, ok := g.Locate(as)
+				if !ok {
+					c.Undecided(rule, key, "the store into the LSN counter at %s could not be located in the flow graph", w.Pos(as.Pos()))
+					continue
+				}
+				if g.HoldsAt(loc, Rel{rk, token.GTR, lk}) || g.HoldsAt(loc, Rel{rk, token.GEQ, lk}) {
+					c.OK(rule, key, as.Pos(), 1, "guarded: %s is not smaller than the counter", rk)
+					continue
+				}
+				c.Fail(rule, key, as.Pos(), "%s sets the LSN counter to %s whatever its present value: when the header is ahead of the log (CREATE TABLE stamps the catalog pages with LSNs it does not log) the counter moves backwards, the next statements reuse LSNs that pages already carry, and redo skips their records after a crash — a logged root move is lost and later rows go to the wrong leaf", f.Name, rk)
+			}
+			return true
+		})
+	}
+	if n == 0 {
+		c.OK(rule, "lsn-counter|no-plain-store", token.NoPos, 1, "no assignment to the LSN counter outside ++ and the header decode")
+	}
+}
+
+// ---- CREATE TABLE is refused before the catalog changes, or not at all ----------------------------------------------------
+
+// c14CreateAtomic: the catalog rows of a new table are several inserts (one page-table row, one schema row per column).
+// A row the storage layer refuses (too large for a cell, a length out of range) must be found before the first of them.
+func c14CreateAtomic(c *Ctx, rule string) {
+	c.Rule(rule, "CREATE TABLE cannot be refused half way: in createTable no call that follows the first catalog insert can return a row-validation error (ErrRowTooLarge, ErrIntOutOfRange, ErrTypeMismatch, ErrColCountMismatch) unless a call that precedes the first catalog insert returns those errors for the same rows — otherwise a column whose catalog row is refused leaves the table registered with some of its columns, and the failed statement has changed the catalog ('table already exists')")
+	c.Robust(rule)
+	w := c.W
+	cg := w.CG()
+	var f *Func
+	for _, name := range []string{"storage.(*RelationService).createTable", "storage.(*RelationService).CreateTable"} {
+		if cand := w.F(name); cand != nil && len(cand.Calls(cand.Decl.Body, false, "storage.RelationService.createPage")) > 0 {
+			f = cand
+		}
+	}
+	if f == nil {
+		c.Undecided(rule, "anchor|createTable", "no function allocating the table's first page found")
+		return
+	}
+	ins := w.F("storage.(*BTree).insert")
+	if ins == nil {
+		c.Undecided(rule, "anchor|BTree.insert", "BTree.insert not found")
+		return
+	}
+	sites := append([]*CallSite{}, cg.Sites[f]...)
+	sortSites(sites)
+	var first *CallSite
+	for _, cs := range sites {
+		if cs.InLit != nil || len(cs.Targets) == 0 {
+			continue
+		}
+		if cg.Reach(cs.Targets...)[ins] {
+			first = cs
+			break
+		}
+	}
+	if first == nil {
+		c.Undecided(rule, f.Name+"|first-catalog-insert", "no call of createTable reaches BTree.insert")
+		return
+	}
+	n := 0
+	for _, cs := range sites {
+		if cs.InLit != nil || cs.Call.Pos() <= first.Call.Pos() || len(cs.Targets) == 0 {
+			continue
+		}
+		sent := coneSentinels(w, cs.Targets...)
+		if len(sent) == 0 {
+			continue
+		}
+		n++
+		key := f.Name + "|refusal-after-catalog-change|" + calleeKey(cs.Callee)
+		covered := ""
+		have := map[string]bool{}
+		var by []string
+		for _, pre := range sites {
+			if pre.InLit != nil || pre.Call.Pos() >= first.Call.Pos() || len(pre.Targets) == 0 {
+				continue
+			}
+			if cg.Reach(pre.Targets...)[ins] {
+				continue
+			}
+			if ss := coneSentinels(w, pre.Targets...); len(ss) > 0 {
+				for _, s := range ss {
+					have[s] = true
+				}
+				by = append(by, calleeKey(pre.Callee))
+			}
+		}
+		all := true
+		for _, s := range sent {
+			if !have[s] {
+				all = false
+			}
+		}
+		if all {
+			covered = strings.Join(by, ", ")
+		}
+		if covered != "" {
+			c.OK(rule, key, cs.Call.Pos(), 2, "the rows are validated by %s before the first catalog insert", covered)
+		} else {
+			c.Fail(rule, key, cs.Call.Pos(), "%s can refuse a row (%s) after %s has already added the table to the catalog, and nothing validates the rows before: CREATE TABLE with a column whose catalog row is refused fails with the table half created — a second CREATE TABLE reports 'table already exists'", calleeKey(cs.Callee), strings.Join(sent, ", "), calleeKey(first.Callee))
+		}
+	}
+	if n == 0 {
+		c.OK(rule, f.Name+"|refusal-after-catalog-change|none", f.Decl.Pos(), len(sites), "no call after the first catalog insert can return a row-validation error")
+	}
+}
+
+func sortSites(s []*CallSite) {
+	for i := 1; i < len(s); i++ {
+		for j := i; j > 0 && s[j].Call.Pos() < s[j-1].Call.Pos(); j-- {
+			s[j], s[j-1] = s[j-1], s[j]
+		}
+	}
+}
